@@ -107,6 +107,8 @@ inline sim::Op genMutator(sim::Rng &r, const GenCfg &c, const sim::Op &prev) {
         else o.y |= F_FORCE;
         // ~70% of forced copies repeat the label of the previous op so that "all copies carry the same label" is common
         if (r.pm(700)) o.x = prev.x;
+        // extreme multiplicities: all copies of a pair carry the same value, so that the totals stay specified
+        if (c.extreme) o.x = ((o.a + o.b) * 7 + o.a * o.b) & 15;
     }
     return o;
 }
